@@ -14,6 +14,42 @@ import sys
 ROOT = os.path.dirname(os.path.dirname(os.path.abspath(__file__)))
 
 
+def summarize(lines):
+    """-> short description of which gate/clause caught the change, from the VIOLATION lines' replay files"""
+    import re
+    hows = []
+    for l in lines:
+        m = re.match(r"VIOLATION property=(\S+) replay=(\S+)(.*)", l)
+        if not m:
+            continue
+        try:
+            r = json.load(open(os.path.join(ROOT, m.group(2))))
+        except Exception:
+            continue
+        kind = r.get("kind")
+        if kind == "property-monitor":
+            hows.append("%s: monitor clause `%s` on engine %s, case `%s`" % (m.group(1), r.get("clause"), r.get("engine"), str(r.get("case"))[:90]))
+        elif kind == "correspondence":
+            hows.append("%s: %s%s" % (m.group(1), (r.get("broken") or "model/implementation disagreement")[:110],
+                                       (", clause `%s`" % r["clause"]) if r.get("clause") else (" (" + m.group(3).strip() + ")" if m.group(3).strip() else "")))
+        else:
+            hows.append("%s: %s %s" % (m.group(1), kind, m.group(3).strip()))
+    return hows
+
+
+def record(sid, results):
+    mp = os.path.join(ROOT, "seeded", sid, "meta.json")
+    meta = json.load(open(mp))
+    hows = []
+    for p, v in results.items():
+        hows += summarize(v["lines"])
+    caught = any(v["exit"] == 1 for v in results.values())
+    meta["check_result"] = {"verdict": "CAUGHT" if caught else "MISSED",
+                            "checks_run": {p: v["exit"] for p, v in results.items()},
+                            "how": "; ".join(dict.fromkeys(hows))[:600]}
+    json.dump(meta, open(mp, "w"), indent=1)
+
+
 def main():
     sid = sys.argv[1]
     d = os.path.join(ROOT, "seeded", sid)
@@ -40,6 +76,7 @@ def main():
             if r.returncode not in (0, 1):
                 print(r.stderr[-2000:])
         caught = any(v["exit"] == 1 for v in results.values())
+        record(sid, results)
         print("CAUGHT" if caught else "MISSED", sid)
         return 0 if caught else 3
     finally:
